@@ -219,4 +219,161 @@ theorem natToBytes_eq (n : Nat) : natToBytes n = (Nat.digits 256 n).reverse.map 
   unfold natToBytes
   rw [digitsLE_eq (by decide)]
 
+
+/-! ## the Encode loop is repeated division by 58 -/
+
+theorem emitWhile_eq : ∀ (f m : Nat), m ≤ f → emitWhile f m = (Nat.digits 58 m).map alpha
+  | 0, m, h => by
+    have : m = 0 := by omega
+    subst this; simp [emitWhile]
+  | f + 1, m, h => by
+    simp only [emitWhile]
+    split_ifs with h0
+    · subst h0; simp
+    · have hpos : 0 < m := Nat.pos_of_ne_zero h0
+      rw [Nat.digits_def' (by decide) hpos, emitWhile_eq f (m / 58) (by have := Nat.div_lt_self hpos (by decide : 1 < 58); omega)]
+      simp
+
+/-- the `k` low digits, zero padded -/
+def firstDigits : Nat → Nat → List Nat
+  | 0, _ => []
+  | k + 1, m => m % 58 :: firstDigits k (m / 58)
+
+theorem emitN_eq : ∀ (k m : Nat), emitN k m = (firstDigits k m).map alpha
+  | 0, _ => rfl
+  | k + 1, m => by simp [emitN, firstDigits, emitN_eq k (m / 58)]
+
+theorem firstDigits_mod : ∀ (k x : Nat), firstDigits k (x % 58 ^ k) = firstDigits k x
+  | 0, _ => rfl
+  | k + 1, x => by
+    simp only [firstDigits]
+    have h1 : x % 58 ^ (k + 1) % 58 = x % 58 := Nat.mod_mod_of_dvd x (Dvd.intro_left (58 ^ k) rfl)
+    have h2 : x % 58 ^ (k + 1) / 58 = x / 58 % 58 ^ k := by
+      rw [Nat.pow_succ, Nat.mul_comm]; exact Nat.mod_mul_right_div_self x 58 (58 ^ k)
+    rw [h1, h2, firstDigits_mod k (x / 58)]
+
+theorem digits_split : ∀ (k x : Nat), 58 ^ k ≤ x → Nat.digits 58 x = firstDigits k x ++ Nat.digits 58 (x / 58 ^ k)
+  | 0, x, _ => by simp [firstDigits]
+  | k + 1, x, h => by
+    have hpos : 0 < x := Nat.lt_of_lt_of_le (Nat.pow_pos (by decide)) h
+    have hk : 58 ^ k ≤ x / 58 := by
+      rw [Nat.le_div_iff_mul_le (by decide)]; rw [Nat.pow_succ] at h; exact h
+    rw [Nat.digits_def' (by decide) hpos, digits_split k (x / 58) hk, Nat.div_div_eq_div_mul, Nat.pow_succ]
+    simp only [firstDigits, List.cons_append]
+    rw [Nat.mul_comm]
+
+theorem encodeLoop_eq : ∀ (f x : Nat), x ≤ f → encodeLoop f x = (Nat.digits 58 x).map alpha
+  | 0, x, h => by
+    have : x = 0 := by omega
+    subst this; simp [encodeLoop]
+  | f + 1, x, h => by
+    simp only [encodeLoop]
+    split_ifs with h0 hq
+    · subst h0; simp
+    · have hlt : x < radix10 := by
+        rcases Nat.lt_or_ge x radix10 with hh | hh
+        · exact hh
+        · have : 0 < x / radix10 := Nat.div_pos hh (by decide)
+          omega
+      rw [Nat.mod_eq_of_lt hlt]
+      exact emitWhile_eq x x (Nat.le_refl x)
+    · have hpos : 0 < x := Nat.pos_of_ne_zero h0
+      have hge : radix10 ≤ x := by
+        rcases Nat.lt_or_ge x radix10 with hh | hh
+        · exact absurd (Nat.div_eq_of_lt hh) hq
+        · exact hh
+      have hqlt : x / radix10 < x := Nat.div_lt_self hpos (by decide)
+      rw [encodeLoop_eq f (x / radix10) (by omega), emitN_eq]
+      unfold radix10 at *
+      rw [firstDigits_mod, digits_split 10 x hge, List.map_append]
+
+theorem encode_eq_conv (b : Bytes) : encode b = (conv 256 58 (b.map UInt8.toNat)).map alpha := by
+  unfold encode conv
+  simp only []
+  rw [encodeLoop_eq _ _ (Nat.le_refl _), List.reverse_append, List.reverse_replicate, ← List.map_reverse,
+    List.map_append, List.map_replicate, alpha_zero, leadingCount_zero, bytesToNat_eq]
+
+/-! ## the Decode loop is positional evaluation -/
+
+theorem chunkTotal_eq : ∀ (l : Bytes) (t : Nat), Valid l →
+    chunkTotal t l = some ((l.map b58).foldl (fun a d => a * 58 + d) t)
+  | [], _, _ => rfl
+  | v :: r, t, h => by
+    simp only [chunkTotal, List.map_cons, List.foldl_cons]
+    rw [if_neg (h v (by simp))]
+    exact chunkTotal_eq r _ (fun x hx => h x (by simp [hx]))
+
+theorem chunkTotal_none : ∀ (l : Bytes) (t : Nat), ¬ Valid l → chunkTotal t l = none
+  | [], _, h => absurd (fun _ hc => by simp at hc) h
+  | v :: r, t, h => by
+    simp only [chunkTotal]
+    split_ifs with hv
+    · rfl
+    · apply chunkTotal_none r
+      intro hr
+      apply h
+      intro c hc
+      rw [List.mem_cons] at hc
+      rcases hc with rfl | hc
+      · exact hv
+      · exact hr c hc
+
+theorem decodeLoop_eq : ∀ (f : Nat) (t : Bytes) (ans : Nat), t.length ≤ f → Valid t →
+    decodeLoop f t ans = some ((t.map b58).foldl (fun a d => a * 58 + d) ans)
+  | 0, t, ans, h, _ => by
+    have : t = [] := List.length_eq_zero_iff.mp (by omega)
+    subst this; rfl
+  | f + 1, [], ans, _, _ => rfl
+  | f + 1, c :: r, ans, h, hv => by
+    simp only [decodeLoop]
+    have hn : 1 ≤ min (c :: r).length 10 := by simp only [List.length_cons]; omega
+    have hvt : Valid ((c :: r).take (min (c :: r).length 10)) := fun x hx => hv x (List.mem_of_mem_take hx)
+    have hvd : Valid ((c :: r).drop (min (c :: r).length 10)) := fun x hx => hv x (List.mem_of_mem_drop hx)
+    rw [chunkTotal_eq _ _ hvt]
+    simp only []
+    rw [decodeLoop_eq f _ _ (by simp only [List.length_drop]; omega) hvd]
+    have hr : bigRadix (min (c :: r).length 10) = 58 ^ ((c :: r).take (min (c :: r).length 10)).length := by
+      have hl : ((c :: r).take (min (c :: r).length 10)).length = min (c :: r).length 10 := by
+        rw [List.length_take]; omega
+      unfold bigRadix
+      rw [if_neg (by omega), hl]
+    conv_rhs => rw [← List.take_append_drop (min (c :: r).length 10) (c :: r), List.map_append, List.foldl_append,
+      foldl_shift 58 _ ans, List.length_map]
+    rw [hr]
+
+theorem decodeLoop_none : ∀ (f : Nat) (t : Bytes) (ans : Nat), t.length ≤ f → ¬ Valid t →
+    decodeLoop f t ans = none
+  | 0, t, ans, h, hv => by
+    have : t = [] := List.length_eq_zero_iff.mp (by omega)
+    subst this
+    exact absurd (fun _ hc => by simp at hc) hv
+  | f + 1, [], ans, _, hv => absurd (fun _ hc => by simp at hc) hv
+  | f + 1, c :: r, ans, h, hv => by
+    simp only [decodeLoop]
+    by_cases hvt : Valid ((c :: r).take (min (c :: r).length 10))
+    · rw [chunkTotal_eq _ _ hvt]
+      simp only []
+      apply decodeLoop_none f
+      · simp only [List.length_drop, List.length_cons] at h ⊢; omega
+      · intro hvd
+        apply hv
+        intro x hx
+        rw [← List.take_append_drop (min (c :: r).length 10) (c :: r), List.mem_append] at hx
+        rcases hx with hx | hx
+        · exact hvt x hx
+        · exact hvd x hx
+    · rw [chunkTotal_none _ _ hvt]
+
+theorem decode?_eq_conv (s : Bytes) (h : Valid s) :
+    decode? s = some ((conv 58 256 (s.map b58)).map Nat.toUInt8) := by
+  unfold decode? conv
+  rw [decodeLoop_eq _ _ _ (Nat.le_refl _) h]
+  simp only []
+  rw [natToBytes_eq, leadingCount_idx0 s h, List.map_append, List.map_replicate]
+  rfl
+
+theorem decode?_none (s : Bytes) (h : ¬ Valid s) : decode? s = none := by
+  unfold decode?
+  rw [decodeLoop_none _ _ _ (Nat.le_refl _) h]
+
 end Mixin.Base58
